@@ -1,19 +1,20 @@
 #!/bin/bash
 # usage: tools/confirm_seed.sh <ID> <A|B>   -- independent confirmation of a seeded change in its scratch worktree
 ID=$1; X=$2
-WT=/tmp/seed/wt_$ID; OUT=/tmp/seed/out_$ID/$X; RES=/tmp/seed/confirm_${ID}_$X.json
+R=${SEEDROOT:-/tmp/seed}
+WT=$R/wt_$ID; OUT=$R/out_$ID/$X; RES=$R/confirm_${ID}_$X.json
 cd $WT || exit 3
 git checkout -q -- . ; git clean -fdq
-d0=$(PYTHONPATH=$WT timeout 1800 /venv/bin/python $OUT/demo.py > /tmp/seed/demo_${ID}_${X}_pristine.log 2>&1; echo $?)
+d0=$(PYTHONPATH=$WT timeout 1800 /venv/bin/python $OUT/demo.py > $R/demo_${ID}_${X}_pristine.log 2>&1; echo $?)
 git apply --check $OUT/patch.diff || { echo "{\"id\":\"$ID\",\"x\":\"$X\",\"error\":\"patch does not apply\"}" > $RES; exit 1; }
 git apply $OUT/patch.diff
-d1=$(PYTHONPATH=$WT timeout 1800 /venv/bin/python $OUT/demo.py > /tmp/seed/demo_${ID}_${X}_patched.log 2>&1; echo $?)
-PYTHONPATH=$WT /venv/bin/python -m pytest -ra -q -p no:cacheprovider --timeout=900 --continue-on-collection-errors --junitxml=/tmp/seed/junit_${ID}_$X.xml > /tmp/seed/suite_${ID}_$X.log 2>&1
+d1=$(PYTHONPATH=$WT timeout 1800 /venv/bin/python $OUT/demo.py > $R/demo_${ID}_${X}_patched.log 2>&1; echo $?)
+PYTHONPATH=$WT /venv/bin/python -m pytest -ra -q -p no:cacheprovider --timeout=900 --continue-on-collection-errors --junitxml=$R/junit_${ID}_$X.xml > $R/suite_${ID}_$X.log 2>&1
 git checkout -q -- . ; git clean -fdq
 /venv/bin/python - <<PY
 import json, xml.etree.ElementTree as ET
 base = set(json.load(open('/root/.vp/BASELINE.json'))['stable_pass'])
-t = ET.parse('/tmp/seed/junit_${ID}_$X.xml')
+t = ET.parse('$R/junit_${ID}_$X.xml')
 passed = set()
 for tc in t.iter('testcase'):
     if not any(ch.tag in ('failure','error','skipped') for ch in tc):
